@@ -330,6 +330,15 @@ def run_history_case(case: dict) -> dict:
             r["n_jobs"] = len(idxs)
             steps.append(r)
             if not r["ok"]:
+                # is it the update path, or can this prefix of the evidence not be learned
+                # at all?  one-shot run (no model) over everything supplied so far
+                if ci == 0:
+                    r["prefix_one_shot"] = {k: r.get(k) for k in ("ok", "exc_type", "where")}
+                else:
+                    upto = [list(pv[i]) for ch in case["split"][:ci + 1] for i in ch]
+                    pr = _learn_guard(lambda: convert(upto, os.path.join(wd, "prefix"),
+                                                      "prefix", None), budget)
+                    r["prefix_one_shot"] = {k: pr.get(k) for k in ("ok", "exc_type", "where")}
                 break
             prev_model = os.path.join(d, fname + "_model.json")
             if not os.path.exists(prev_model):
@@ -357,6 +366,27 @@ def _model_as_fp(model: dict) -> dict:
                      for t, v in sorted(model["events"].items())})
 
 
+def site_of(exc_type: str | None, where: str | None) -> str:
+    """Exception type, with the raising site for the recorded mechanism (known finding
+    keyed by call site, not by exception class)."""
+    if exc_type == "ValueError" and (where or "").startswith("node.py:eventsets_incoming"):
+        return "ValueError@eventsets_incoming"
+    return str(exc_type)
+
+
+def _failure_kind(bad: dict | None) -> str:
+    if not bad:
+        return "?"
+    kind = site_of(bad.get("exc_type"), bad.get("where"))
+    pre = bad.get("prefix_one_shot")
+    if pre and not pre.get("ok") and pre.get("exc_type") == bad.get("exc_type") \
+            and pre.get("where") == bad.get("where"):
+        # learning the same evidence in one run fails in the same way at the same site: the
+        # step fails because of the evidence so far, not because of the saved model
+        return "prefix-evidence-unlearnable:" + kind
+    return kind
+
+
 def _judge_history(out: dict, jobs: list[tuple], rng: random.Random, case: dict) -> None:
     v: list[dict] = []
     one_ok = out.get("one_shot", {}).get("ok")
@@ -364,8 +394,7 @@ def _judge_history(out: dict, jobs: list[tuple], rng: random.Random, case: dict)
     out["one_ok"], out["final_ok"] = bool(one_ok), fin_ok
     if one_ok and not fin_ok:
         bad = next((s for s in out["steps"] if not s["ok"]), None)
-        v.append({"symptom": f"history-fails:{bad['exc_type'] if bad else '?'}",
-                  "detail": bad})
+        v.append({"symptom": "history-fails:" + _failure_kind(bad), "detail": bad})
     if fin_ok and not one_ok:
         v.append({"symptom": "one-shot-fails-history-succeeds:" + out["one_shot"]["exc_type"],
                   "detail": out["one_shot"]})
@@ -517,12 +546,24 @@ def run_cli_history_case(case: dict) -> dict:
             if r["rc"] != 0:
                 fin_ok = False
                 out["failed_step"] = {"chunk": ci, "rc": r["rc"], "out": r["out"][-600:]}
+                marker = "Event sets incoming is not set"
+                same = marker in r["out"]
+                if same and prev:
+                    upto = [i for ch in case["split"][:ci + 1] for i in ch]
+                    pr = cli(["-o", os.path.join(wd, "outprefix"), "pv2puml", "-fp",
+                              write_jobs("inprefix", upto), "-jn", name], wd)
+                    out["cli_runs"] += 1
+                    same = pr["rc"] != 0 and marker in pr["out"]
+                out["failed_step"]["prefix_unlearnable_at_eventsets_incoming"] = same
                 break
             prev = os.path.join(wd, f"out{ci}", fname + "_model.json")
             last = os.path.join(wd, f"out{ci}", fname + ".puml")
         out["one_ok"], out["final_ok"] = one_ok, fin_ok
         if one_ok and not fin_ok:
-            out["violations"].append({"symptom": "history-fails:cli-exit-status",
+            kind = "prefix-evidence-unlearnable:ValueError@eventsets_incoming" \
+                if out["failed_step"].get("prefix_unlearnable_at_eventsets_incoming") \
+                else "cli-exit-status"
+            out["violations"].append({"symptom": "history-fails:" + kind,
                                       "detail": out["failed_step"]})
         if fin_ok and not one_ok:
             out["violations"].append({"symptom": "one-shot-fails-history-succeeds:cli",
